@@ -137,7 +137,23 @@ func genC20Case(r *rand.Rand, rsync bool) SDCase {
 	if backups+1 >= 2 {
 		tags["multi-backup"] = true
 	}
-	if !rsync && r.Intn(4) == 0 {
+	switch tail := r.Intn(5); {
+	case rsync:
+	case tail == 1:
+		// the backup location changes owner while the hub keeps running: it is emptied and another store's backup
+		// appears there; the hub's next runs must leave it alone
+		c.Ops = append(c.Ops, SDOp{Kind: "reassign-location"}, SDOp{Kind: "batch", DS: "da", Ents: []model.Ent{gen.Entity(r, v, v.IDs[0])}}, SDOp{Kind: "backup-foreign"}, SDOp{Kind: "backup-foreign"})
+		tags["location-reassigned"] = true
+	case tail == 2:
+		// a run fails inside the dump (no space left at the backup location); the next run of the same process may or
+		// may not complete, the first completed run afterwards must hold everything
+		e1, e2, e3 := gen.Entity(r, v, v.IDs[0]), gen.Entity(r, v, v.IDs[1]), gen.Entity(r, v, v.IDs[2])
+		c.Ops = append(c.Ops, SDOp{Kind: "batch", DS: "da", Ents: []model.Ent{e1}}, SDOp{Kind: "backup-fails"},
+			SDOp{Kind: "batch", DS: "db", Ents: []model.Ent{e2}}, SDOp{Kind: "backup-after-failure"},
+			SDOp{Kind: "restart"}, SDOp{Kind: "batch", DS: "da", Ents: []model.Ent{e3}}, SDOp{Kind: "backup"})
+		tags["failed-run"] = true
+	}
+	if !rsync && r.Intn(4) == 0 && !tags["location-reassigned"] && !tags["failed-run"] {
 		// the store is wiped (DELETE /datasets): what follows is a different store, whose runs must leave the
 		// backup location of the wiped one alone
 		c.Ops = append(c.Ops, SDOp{Kind: "wipe"}, SDOp{Kind: "batch", DS: "da", Ents: []model.Ent{gen.Entity(r, v, v.IDs[0])}}, SDOp{Kind: "backup-after-wipe"})
@@ -310,6 +326,68 @@ func runC20Case(ctx *Ctx, c SDCase) {
 				s.core.Dsm.CreateDataset(d, nil)
 				s.m.Create(d)
 			}
+		case "reassign-location":
+			loc := filepath.Join(dir, "backup")
+			_ = os.RemoveAll(loc)
+			_ = os.MkdirAll(loc, 0o755)
+			_ = os.WriteFile(filepath.Join(loc, server.StorageIDFileName), []byte("424242"), 0o644)
+			_ = os.WriteFile(filepath.Join(loc, "datahub-backup.kv"), []byte("someone else's backup"), 0o644)
+			_ = os.WriteFile(filepath.Join(loc, "datahub-backup.lastseen"), []byte{9, 0, 0, 0, 0, 0, 0, 0}, 0o644)
+		case "backup-foreign":
+			loc := filepath.Join(dir, "backup")
+			before := dirHash(loc)
+			func() {
+				defer func() { _ = recover() }()
+				bm.Run()
+			}()
+			if after := dirHash(loc); after != before {
+				s.viol("C20", "reassigned-location-overwritten", "the backup location was emptied and taken over by another store (its DATAHUB_BACKUPID differs) while the hub kept running; the hub's next backup run modified it", before, after)
+				s.abort = true
+				break
+			}
+			ctx.Out.Stat("c20_runs_on_reassigned_location_refused", 1)
+		case "backup-fails":
+			kv := filepath.Join(dir, "backup", "datahub-backup.kv")
+			if _, err := os.Stat("/dev/full"); err != nil {
+				break
+			}
+			if _, err := os.Stat(kv); err != nil {
+				break
+			}
+			_ = os.Rename(kv, kv+".real")
+			_ = os.Symlink("/dev/full", kv)
+			func() {
+				defer func() { _ = recover() }() // the hub reports a failed native run with a panic
+				bm.Run()
+			}()
+			_ = os.Remove(kv)
+			_ = os.Rename(kv+".real", kv)
+			ctx.Out.Stat("c20_runs_failed_by_a_full_location", 1)
+		case "backup-after-failure":
+			// the run after a failed one, same process: if it completes (the cursor file is rewritten), the restore
+			// must be the state at its start; if the hub skips it, the next completed run is judged instead
+			ls := filepath.Join(dir, "backup", "datahub-backup.lastseen")
+			stamp := func() string {
+				fi, err := os.Stat(ls)
+				if err != nil {
+					return "-"
+				}
+				b, _ := os.ReadFile(ls)
+				return fmt.Sprintf("%d|%x", fi.ModTime().UnixNano(), b)
+			}
+			want := s.c20Snapshot(s.core)
+			before := stamp()
+			func() {
+				defer func() { _ = recover() }()
+				bm.Run()
+			}()
+			if stamp() == before {
+				ctx.Out.Stat("c20_runs_after_a_failure_not_completed", 1)
+				break
+			}
+			nBackups++
+			ctx.Out.Stat("c20_runs_after_a_failure_completed", 1)
+			s.c20RestoreAndCompare(dir, rsync, want, nBackups)
 		case "backup-after-wipe":
 			loc := filepath.Join(dir, "backup")
 			before := dirHash(loc)
